@@ -1030,12 +1030,11 @@ func c08Alphabet(upB bool) func(o *c08Obs) []c08Op {
 	}
 }
 
+// seed brings the world into the state an exploration starts from; the seeding messages are judged like any others
+// (monitors and one Chain case), and a refusal is left to them: it is no harness error
 func (g *c08Run) seed(ops []c08Op) error {
-	for _, o := range ops {
-		if out := g.w.exec(o); out != OutOk {
-			res := g.w.e.Run(g.w.msg(o))
-			return fmt.Errorf("seeding op %+v: %s (%s)", o, out, res.Err)
-		}
+	if len(ops) > 0 {
+		g.chain(ops, "seed")
 	}
 	return nil
 }
